@@ -35,9 +35,37 @@ theorem decode_struct_map (fl : Flags) (env : Env) (fs : Fields) (kvs : List (St
         vfail := (decodeFlat fl env fs kvs).vfail } := by
   simp [decode]
 
-theorem decode_ptr (fl : Flags) (env : Env) (n : Bool) (s : Schema) (v : Val) (h : v ≠ .null) :
+theorem decode_ptr (fl : Flags) (env : Env) (n : Bool) (s : Schema) (v : Val) (h : v ≠ .null)
+    (hs : ∀ str, v ≠ .str str) :
     decode fl env (.ptr n s) v = { decode fl env s v with val := .ptr (decode fl env s v).val } := by
   cases v <;> simp_all [decode]
+
+/-- a text at a pointer position: the hooks see the pointer target first (round 6) -/
+theorem decode_ptr_str (fl : Flags) (env : Env) (n : Bool) (s : Schema) (str : Str) :
+    decode fl env (.ptr n s) (.str str) =
+      match injectOther env str with
+      | .error e => R.fail (keep false (.ptr n s)).val e
+      | .ok _ => { decode fl env s (.str str) with val := .ptr (decode fl env s (.str str)).val } := by
+  simp only [decode]
+  cases injectOther env str <;> rfl
+
+/-- whatever fails / is rejected below a pointer fails / is rejected at the pointer -/
+theorem ptr_errs_later (fl : Flags) (env : Env) (n : Bool) (s : Schema) (v : Val) (h : v ≠ .null) :
+    ((decode fl env s v).errs ≠ [] → (decode fl env (.ptr n s) v).errs ≠ []) ∧
+    ((decode fl env s v).later ≠ [] → (decode fl env (.ptr n s) v).errs ≠ [] ∨ (decode fl env (.ptr n s) v).later ≠ []) ∧
+    ((decode fl env s v).vfail = true → (decode fl env (.ptr n s) v).errs ≠ [] ∨ (decode fl env (.ptr n s) v).vfail = true) := by
+  by_cases hs : ∀ str, v ≠ .str str
+  · rw [decode_ptr fl env n s v h hs]
+    exact ⟨id, Or.inr, Or.inr⟩
+  · have : ∃ str, v = .str str := by
+      apply Classical.byContradiction
+      intro hc
+      exact hs (fun str he => hc ⟨str, he⟩)
+    rcases this with ⟨str, rfl⟩
+    rw [decode_ptr_str]
+    cases injectOther env str with
+    | error e => simp [R.fail]
+    | ok t => exact ⟨id, Or.inr, Or.inr⟩
 
 theorem decode_slice_list (fl : Flags) (env : Env) (e : Schema) (d : DVal) (xs : List Val) :
     decode fl env (.slice e d) (.list xs) =
